@@ -1,11 +1,11 @@
 (* C13: the cancelling() accounting invariant, preserved by every step of the machine (all programs, all schedules). *)
 From Coq Require Import ZArith List Bool Arith Lia.
-From EN Require Import Conc.CancelScope.
+From EN Require Import Conc.CancelScope Proofs.C13_core.
 Import ListNotations.
 
-(* requests a scope still owes to task.uncancel(): only while it is active *)
-Definition w (s : scope) : nat := if s_host s then s_calls s else 0.
-Fixpoint hsum (l : list scope) : nat := match l with [] => 0 | s :: l' => w s + hsum l' end.
+(* requests a scope still owes to task.uncancel(): only while it is active (owed / owed_sum of the model file) *)
+Notation w := owed.
+Notation hsum := owed_sum.
 
 (* task.cancelling() = controller cancels + requests of the active scopes + requests exited scopes never took back
    + uncancel() calls that found the counter at zero *)
@@ -68,3 +68,548 @@ Proof.
 Qed.
 Lemma same_reschedule_delayed : forall st m, same st (fst (reschedule_delayed st m)).
 Proof. intros; unfold reschedule_delayed. destruct (delayed st); simpl; [apply same_refl|sm]. Qed.
+
+(* ---- hsum under updates *)
+Lemma hsum_app : forall a b, hsum (a ++ b) = hsum a + hsum b.
+Proof. induction a; intros; simpl; [reflexivity|rewrite IHa; lia]. Qed.
+
+Lemma hsum_upd : forall l k x, k < length l -> hsum (upd l k x) + w (nth k l dummy_s) = hsum l + w x.
+Proof.
+  induction l as [|a l IH]; intros k x Hk; simpl in Hk; [lia|].
+  destruct k; simpl; [lia|]. specialize (IH k x ltac:(lia)). lia.
+Qed.
+Lemma upd_oob : forall (l : list scope) k x, length l <= k -> upd l k x = l.
+Proof.
+  induction l as [|a l IH]; intros k x Hk; simpl; [reflexivity|].
+  destruct k; simpl in Hk; [lia|]. rewrite IH by lia. reflexivity.
+Qed.
+Lemma nth_upd_same : forall (l : list scope) k x, k < length l -> nth k (upd l k x) dummy_s = x.
+Proof.
+  induction l as [|a l IH]; intros k x Hk; simpl in Hk; [lia|].
+  destruct k; simpl; [reflexivity|]. apply IH; lia.
+Qed.
+Lemma length_upd : forall (l : list scope) k x, length (upd l k x) = length l.
+Proof. induction l; intros [|k] x; simpl; auto. Qed.
+
+Lemma host_valid : forall st k, s_host (get_scope st k) = true -> k < length (scopes st).
+Proof.
+  intros st k H. unfold get_scope in H.
+  destruct (lt_dec k (length (scopes st))) as [L|L]; [assumption|].
+  rewrite nth_overflow in H by lia. discriminate.
+Qed.
+
+(* replacing scope k by one with the same weight *)
+Lemma hsum_put_same_w : forall st k x, w x = w (get_scope st k) -> hsum (scopes (put_scope st k x)) = hsum (scopes st).
+Proof.
+  intros st k x Hw. unfold put_scope. simpl.
+  destruct (lt_dec k (length (scopes st))) as [L|L].
+  - pose proof (hsum_upd (scopes st) k x L). unfold get_scope in Hw. lia.
+  - rewrite upd_oob by lia. reflexivity.
+Qed.
+
+(* effect records *)
+Record eff (st st' : state) (dcnt dext dleak dfloor dh : nat) : Prop := mkEff {
+  e_cnt : t_cnt st' = t_cnt st + dcnt; e_ext : g_ext st' = g_ext st + dext; e_leak : g_leak st' = g_leak st + dleak;
+  e_floor : g_floor st' = g_floor st + dfloor; e_h : hsum (scopes st') = hsum (scopes st) + dh; e_md : md st' = md st }.
+
+Lemma same_eff : forall st st', same st st' -> eff st st' 0 0 0 0 0.
+Proof. intros st st' []; constructor; try lia; [rewrite sm_scopes0; lia|assumption]. Qed.
+Lemma eff_trans : forall a b c c1 e1 l1 f1 h1 c2 e2 l2 f2 h2,
+  eff a b c1 e1 l1 f1 h1 -> eff b c c2 e2 l2 f2 h2 -> eff a c (c1 + c2) (e1 + e2) (l1 + l2) (f1 + f2) (h1 + h2).
+Proof. intros a b c ? ? ? ? ? ? ? ? ? ? [] []; constructor; try lia; congruence. Qed.
+Lemma eff_acct : forall st st' c e l f h, eff st st' c e l f h -> c = e + h + l + f -> acct st -> acct st'.
+Proof. intros st st' c e l f h [] Hb H; unfold acct in *; lia. Qed.
+
+(* a balanced effect: the invariant and the mode are preserved *)
+Definition good (st st' : state) : Prop := (acct st -> acct st') /\ md st' = md st.
+Lemma good_refl : forall st, good st st.
+Proof. intros; split; auto. Qed.
+Lemma good_trans : forall a b c, good a b -> good b c -> good a c.
+Proof. intros a b c [H1 M1] [H2 M2]; split; [auto|congruence]. Qed.
+Lemma same_good : forall st st', same st st' -> good st st'.
+Proof. intros st st' H; split; [apply same_acct; assumption|apply H]. Qed.
+Lemma eff_good : forall st st' c e l f h, eff st st' c e l f h -> c = e + h + l + f -> good st st'.
+Proof. intros st st' c e l f h H Hb; split; [eapply eff_acct; eauto|apply H]. Qed.
+Lemma good_done : forall st st', good st st' -> task_done st' = task_done st.
+Proof. intros st st' [_ M]; unfold task_done; rewrite M; reflexivity. Qed.
+
+(* Task.cancel: one more request (the task is never done while the machine runs) *)
+Lemma eff_task_cancel : forall st m, task_done st = false -> eff st (task_cancel st m) 1 0 0 0 0.
+Proof.
+  intros st m Hd. unfold task_cancel. rewrite Hd.
+  set (st1 := set_t_cnt st (S (t_cnt st))).
+  assert (E1 : eff st st1 1 0 0 0 0) by (constructor; simpl; first [lia | reflexivity]).
+  destruct (t_waiter st1) as [f|].
+  - unfold fut_cancel. destruct (fut_finish st1 f (FCanc m)) as [st2 ok] eqn:E.
+    assert (S2 : same st1 st2) by (replace st2 with (fst (fut_finish st1 f (FCanc m))) by (rewrite E; reflexivity);
+                                   apply same_fut_finish).
+    assert (E2 : eff st st2 (1+0) (0+0) (0+0) (0+0) (0+0)) by (eapply eff_trans; [exact E1|apply same_eff; exact S2]).
+    destruct ok; [exact E2|].
+    destruct E2; constructor; simpl; assumption.
+  - destruct E1; constructor; simpl; assumption.
+Qed.
+
+Lemma task_cancel_scopes : forall st m, scopes (task_cancel st m) = scopes st.
+Proof.
+  intros. unfold task_cancel. destruct (task_done st); [reflexivity|].
+  set (st1 := set_t_cnt st (S (t_cnt st))).
+  destruct (t_waiter st1) as [f|]; [|reflexivity].
+  unfold fut_cancel. destruct (fut_finish st1 f (FCanc m)) as [st2 ok] eqn:E.
+  assert (S2 : same st1 st2) by (replace st2 with (fst (fut_finish st1 f (FCanc m))) by (rewrite E; reflexivity);
+                                 apply same_fut_finish).
+  destruct ok; simpl; rewrite (sm_scopes _ _ S2); reflexivity.
+Qed.
+
+(* Task.uncancel: balanced *)
+Lemma good_task_uncancel_cancel : forall st m, task_done st = false -> good st (task_cancel (task_uncancel st) m).
+Proof.
+  intros st m Hd. unfold task_uncancel. destruct (t_cnt st) as [|n] eqn:Ec.
+  - set (st1 := set_g_floor st (S (g_floor st))).
+    assert (eff st st1 0 0 0 1 0) by (constructor; simpl; first [lia | reflexivity]).
+    assert (eff st1 (task_cancel st1 m) 1 0 0 0 0) by (apply eff_task_cancel; exact Hd).
+    eapply eff_good; [eapply eff_trans; eassumption|lia].
+  - set (st1 := set_t_cnt st n).
+    assert (E2 : eff st1 (task_cancel st1 m) 1 0 0 0 0) by (apply eff_task_cancel; exact Hd).
+    destruct E2. split; [|simpl in *; assumption].
+    unfold acct in *. simpl in *. intros. lia.
+Qed.
+
+Lemma eff_put_scope : forall st k x d, k < length (scopes st) -> w x = w (get_scope st k) + d ->
+  eff st (put_scope st k x) 0 0 0 0 d.
+Proof.
+  intros st k x d L Hw. constructor; simpl; try lia; try reflexivity.
+  pose proof (hsum_upd (scopes st) k x L). unfold get_scope in Hw. lia.
+Qed.
+Lemma same_w_put_scope : forall st k x, w x = w (get_scope st k) -> eff st (put_scope st k x) 0 0 0 0 0.
+Proof.
+  intros st k x Hw. constructor; simpl; try lia; try reflexivity.
+  pose proof (hsum_put_same_w st k x Hw) as H. simpl in H. lia.
+Qed.
+Lemma good_put_same_w : forall st k x, w x = w (get_scope st k) -> good st (put_scope st k x).
+Proof. intros. eapply eff_good; [apply same_w_put_scope; assumption|lia]. Qed.
+
+Lemma get_put_scope : forall st k x, k < length (scopes st) -> get_scope (put_scope st k x) k = x.
+Proof. intros. unfold get_scope, put_scope. simpl. apply nth_upd_same; assumption. Qed.
+
+Lemma good_upd_same_w : forall st k f, (forall s, w (f s) = w s) -> good st (upd_scope st k f).
+Proof. intros. unfold upd_scope. apply good_put_same_w. auto. Qed.
+
+Lemma w_set_ch : forall ch s, w (sc_set_ch ch s) = w s. Proof. reflexivity. Qed.
+Lemma w_set_th : forall th s, w (sc_set_th th s) = w s. Proof. reflexivity. Qed.
+Lemma w_set_called : forall s, w (sc_set_called s) = w s. Proof. reflexivity. Qed.
+Lemma w_set_deadline : forall dl s, w (sc_set_deadline dl s) = w s. Proof. reflexivity. Qed.
+
+Lemma good_deliver_arm : forall st k retry, good st (deliver_arm st k retry).
+Proof.
+  intros st k [|]; unfold deliver_arm.
+  - eapply good_trans; [apply same_good; apply same_call_soon|]. apply good_upd_same_w. apply w_set_ch.
+  - apply good_upd_same_w. apply w_set_ch.
+Qed.
+
+Lemma good_deliver_issue : forall st k, task_done st = false -> s_host (get_scope st k) = true ->
+  good st (deliver_issue st k).
+Proof.
+  intros st k Hd Hh. unfold deliver_issue, upd_scope.
+  pose proof (host_valid st k Hh) as L.
+  pose proof (eff_task_cancel st (Some k) Hd) as E1.
+  set (st1 := task_cancel st (Some k)) in *.
+  assert (Hs : get_scope st1 k = get_scope st k) by (unfold get_scope, st1; rewrite task_cancel_scopes; reflexivity).
+  assert (L1 : k < length (scopes st1)) by (unfold st1; rewrite task_cancel_scopes; exact L).
+  eapply eff_good.
+  - eapply eff_trans; [exact E1|]. apply eff_put_scope with (d := 1); [exact L1|].
+    rewrite Hs. unfold owed, sc_inc_calls. simpl. rewrite Hh. lia.
+  - lia.
+Qed.
+
+(* __deliver_cancellation *)
+Lemma good_deliver : forall st k, task_done st = false -> good st (deliver st k).
+Proof.
+  intros st k Hd. unfold deliver.
+  destruct (s_host (get_scope st k)) eqn:Hh; [|apply good_refl].
+  cbn [negb]. destruct (delayed st) as [[h m]|]; [apply good_deliver_arm|].
+  destruct (negb (t_must st) && negb (task_is_current st)); [|apply good_deliver_arm].
+  eapply good_trans; [apply good_deliver_issue|apply good_deliver_arm]. all: assumption.
+Qed.
+
+Lemma good_scope_cancel : forall st k, task_done st = false -> good st (scope_cancel st k).
+Proof.
+  intros st k Hd. unfold scope_cancel. destruct (s_called (get_scope st k)); [apply good_refl|].
+  assert (G1 : good st (upd_scope (cancel_ohandle st (s_th (get_scope st k))) k sc_set_called)).
+  { eapply good_trans; [apply same_good; apply same_cancel_ohandle|]. apply good_upd_same_w. apply w_set_called. }
+  eapply good_trans; [exact G1|]. apply good_deliver. rewrite (good_done _ _ G1). exact Hd.
+Qed.
+
+Lemma good_setup_timeout : forall st k, task_done st = false -> good st (setup_timeout st k).
+Proof.
+  intros st k Hd. unfold setup_timeout. destruct (s_deadline (get_scope st k)) as [dl|]; [|apply good_refl].
+  destruct (dl <=? time st); [apply good_scope_cancel; exact Hd|].
+  eapply good_trans; [apply same_good; apply same_call_at|]. apply good_upd_same_w. apply w_set_th.
+Qed.
+
+Lemma good_scope_reschedule : forall st k when, task_done st = false -> good st (scope_reschedule st k when).
+Proof.
+  intros st k when Hd. unfold scope_reschedule.
+  assert (G1 : good st (upd_scope (cancel_ohandle st (s_th (get_scope st k))) k (sc_set_deadline when))).
+  { eapply good_trans; [apply same_good; apply same_cancel_ohandle|]. apply good_upd_same_w. apply w_set_deadline. }
+  destruct (s_state (get_scope st k)); try exact G1.
+  destruct (s_called (get_scope st k)); [exact G1|].
+  eapply good_trans; [exact G1|]. apply good_setup_timeout. rewrite (good_done _ _ G1). exact Hd.
+Qed.
+
+Lemma good_check_pending : forall st, task_done st = false -> good st (check_pending st).
+Proof.
+  intros st Hd. unfold check_pending. destruct (first_called st (sstack st)) as [k|]; [|apply good_refl].
+  destruct (s_ch (get_scope st k)); [apply good_refl|apply good_deliver; exact Hd].
+Qed.
+
+(* __enter__ *)
+Lemma good_scope_enter : forall st pre dl, task_done st = false -> good st (fst (scope_enter st pre dl)).
+Proof.
+  intros st pre dl Hd. unfold scope_enter.
+  set (st1 := set_sstack _ _).
+  assert (G1 : good st st1).
+  { eapply eff_good with (c := 0) (e := 0) (l := 0) (f := 0) (h := 0); [|lia].
+    constructor; simpl; try lia; try reflexivity. rewrite hsum_app. simpl. lia. }
+  assert (Hd1 : task_done st1 = false) by (rewrite (good_done _ _ G1); exact Hd).
+  destruct pre; simpl.
+  - eapply good_trans; [exact G1|apply good_deliver; exact Hd1].
+  - eapply good_trans; [exact G1|apply good_setup_timeout; exact Hd1].
+Qed.
+
+Lemma same_exit_drop_delayed : forall st k, same st (exit_drop_delayed st k).
+Proof.
+  intros. unfold exit_drop_delayed. destruct (delayed st) as [[h m]|]; [|apply same_refl].
+  destruct (msg_eqb m (Some k)); [|apply same_refl]. sm.
+Qed.
+
+(* the exception-dependent part of __exit__: what it takes back from cancelling() is exactly what it no longer owes *)
+Lemma exit_called_acct : forall st k s exc st' calls caught,
+  exit_called st k s exc = (st', calls, caught) ->
+  calls <= s_calls s /\ g_floor st <= g_floor st' /\
+  t_cnt st' + (s_calls s - calls) = t_cnt st + (g_floor st' - g_floor st) /\
+  g_ext st' = g_ext st /\ g_leak st' = g_leak st /\ scopes st' = scopes st /\ md st' = md st.
+Proof.
+  intros st k s exc st' calls caught H. unfold exit_called in H.
+  destruct exc as [[m| |]|].
+  - destruct (uncancel_loop (s_calls s) (t_cnt st) (s_hostc s) (g_floor st)) as [[[c cnt] fl] hit] eqn:E.
+    apply uncancel_loop_spec in E. destruct E as (A & B & C & _).
+    inversion H; subst. simpl. repeat split; try lia.
+  - inversion H; subst. repeat split; try lia.
+  - inversion H; subst. repeat split; try lia.
+  - inversion H; subst. repeat split; try lia.
+Qed.
+
+(* __exit__ *)
+Lemma good_scope_exit : forall st k exc, task_done st = false -> good st (fst (scope_exit st k exc)).
+Proof.
+  intros st k exc Hd. unfold scope_exit.
+  destruct (s_host (get_scope st k)) eqn:Hh; cbn [negb]; [|simpl; apply same_good; sm].
+  pose proof (host_valid st k Hh) as L.
+  set (s := get_scope st k) in *.
+  set (st2 := set_sstack _ _).
+  assert (S2 : same st st2).
+  { unfold st2. eapply same_trans; [apply same_cancel_ohandle|].
+    eapply same_trans; [apply same_cancel_ohandle|]. sm. }
+  set (r := if s_called s then exit_called st2 k s exc else (st2, s_calls s, s_caught s)).
+  assert (R : let st3 := fst (fst r) in let calls := snd (fst r) in
+              calls <= s_calls s /\ g_floor st2 <= g_floor st3 /\
+              t_cnt st3 + (s_calls s - calls) = t_cnt st2 + (g_floor st3 - g_floor st2) /\
+              g_ext st3 = g_ext st2 /\ g_leak st3 = g_leak st2 /\ scopes st3 = scopes st2 /\ md st3 = md st2).
+  { unfold r. destruct (s_called s).
+    - destruct (exit_called st2 k s exc) as [[st3 calls] caught] eqn:E. cbn [fst snd].
+      eapply exit_called_acct; exact E.
+    - cbn [fst snd]. repeat split; first [lia|reflexivity]. }
+  cbv zeta in R. destruct R as (R1 & R2 & R3 & R4 & R5 & R6 & R7).
+  set (st4 := if s_called s then exit_drop_delayed (fst (fst r)) k else fst (fst r)).
+  assert (S4 : same (fst (fst r)) st4).
+  { unfold st4. destruct (s_called s); [apply same_exit_drop_delayed|apply same_refl]. }
+  set (new := mkScope false (s_hostc s) (snd (fst r)) SExited (s_called s) (snd r) (s_deadline s) None None).
+  set (st5 := set_g_leak (put_scope st4 k new) (g_leak (put_scope st4 k new) + snd (fst r))).
+  assert (G5 : good st st5).
+  { split.
+    - intro Ha. unfold acct in *. unfold st5. simpl.
+      destruct S2, S4.
+      assert (Hsc : scopes st4 = scopes st) by congruence.
+      rewrite Hsc.
+      pose proof (hsum_upd (scopes st) k new L) as HU.
+      fold (get_scope st k) in HU. fold s in HU.
+      assert (Hw : w s = s_calls s) by (unfold owed; rewrite Hh; reflexivity).
+      assert (Hwn : w new = 0) by reflexivity.
+      lia.
+    - unfold st5. simpl. destruct S2, S4. congruence. }
+  simpl. eapply good_trans; [exact G5|]. apply good_check_pending. rewrite (good_done _ _ G5). exact Hd.
+Qed.
+
+(* ---- yielding / resuming through shield drivers never touches the accounting *)
+Lemma same_yield_out : forall k y st, same st (fst (fst (yield_out k y st))).
+Proof.
+  induction k as [|fr k IH]; intros y st; cbn [yield_out fst]; [apply same_refl|].
+  destruct fr; try (specialize (IH y st); destruct (yield_out k y st) as [[st1 k1] y1]; exact IH).
+  destruct y as [|f].
+  - specialize (IH YNone st). destruct (yield_out k YNone st) as [[st1 k1] y1]. exact IH.
+  - destruct (mk_shield st f) as [st1 o] eqn:E.
+    assert (S1 : same st st1) by (replace st1 with (fst (mk_shield st f)) by (rewrite E; reflexivity); apply same_mk_shield).
+    specialize (IH (YFut o) st1). destruct (yield_out k (YFut o) st1) as [[st2 k2] y2]. cbn [fst] in IH |- *.
+    exact (same_trans _ _ _ S1 IH).
+Qed.
+
+Lemma same_shield_resume : forall st id wt last v outer,
+  same st (fst (fst (shield_resume st id wt last v outer))).
+Proof.
+  intros. unfold shield_resume.
+  assert (P : forall st0, same st0 (fst (fst
+     match cancel_msg_of v last with
+     | Some m => let '(st1, ok) := reschedule_delayed st0 m in
+                 if ok then (st1, FShield id ShRun None true :: outer, RDeliver None)
+                 else (set_g_abort st1 true, outer, RAbort)
+     | None => (st0, FShield id ShRun None true :: outer, RDeliver None)
+     end))).
+  { intros st0. destruct (cancel_msg_of v last) as [m|]; [|apply same_refl].
+    destruct (reschedule_delayed st0 m) as [st1 ok] eqn:E.
+    assert (S1 : same st0 st1) by (replace st1 with (fst (reschedule_delayed st0 m)) by (rewrite E; reflexivity);
+                                   apply same_reschedule_delayed).
+    destruct ok; simpl; [exact S1|]. eapply same_trans; [exact S1|sm]. }
+  destruct wt as [| |f o]; try apply P.
+  destruct (fut_done st f); [apply P|].
+  destruct (mk_shield st f) as [st1 o1] eqn:E.
+  assert (S1 : same st st1) by (replace st1 with (fst (mk_shield st f)) by (rewrite E; reflexivity); apply same_mk_shield).
+  pose proof (same_yield_out outer (YFut o1) st1) as S2.
+  destruct (yield_out outer (YFut o1) st1) as [[st2 k2] y2]. cbn [fst] in S2 |- *.
+  exact (same_trans _ _ _ S1 S2).
+Qed.
+
+Lemma same_resume_in : forall k v st, same st (fst (fst (resume_in k v st))).
+Proof.
+  induction k as [|fr k IH]; intros v st; simpl; [apply same_refl|].
+  specialize (IH v st). destruct (resume_in k v st) as [[st1 k1] r1]. simpl in IH.
+  destruct r1 as [v'|y|]; try exact IH.
+  destruct fr; try exact IH.
+  eapply same_trans; [exact IH|apply same_shield_resume].
+Qed.
+
+Lemma same_task_yield : forall st y, same st (task_yield st y).
+Proof.
+  intros st [|f]; unfold task_yield; [apply same_call_soon|].
+  set (st1 := set_t_waiter (add_cb st f CbWake) (Some f)).
+  assert (S1 : same st st1) by (unfold st1; sm).
+  destruct (t_must st1); [|exact S1].
+  destruct (fut_cancel st1 f (t_msg st1)) as [st2 ok] eqn:E.
+  assert (S2 : same st1 st2) by (replace st2 with (fst (fut_cancel st1 f (t_msg st1))) by (rewrite E; reflexivity);
+                                 apply same_fut_finish).
+  destruct ok; [|eapply same_trans; eassumption].
+  eapply same_trans; [exact S1|]. eapply same_trans; [exact S2|sm].
+Qed.
+
+(* accounting is blind to these fields *)
+Lemma acct_same : forall st st', same st st' -> acct st -> acct st'. Proof. exact same_acct. Qed.
+
+Definition live (st : state) : Prop := task_done st = false.
+
+Lemma acct_do_yield : forall st wt y, acct st -> acct (do_yield st wt y).
+Proof.
+  intros st wt y Ha. unfold do_yield.
+  pose proof (same_yield_out (FWait wt :: frames st) y st) as S1.
+  destruct (yield_out (FWait wt :: frames st) y st) as [[st1 k1] y1]. simpl in S1.
+  pose proof (same_task_yield (set_frames st1 k1) y1) as S2.
+  assert (S0 : same st1 (set_frames st1 k1)) by sm.
+  exact (same_acct _ _ (same_trans _ _ _ S1 (same_trans _ _ _ S0 S2)) Ha).
+Qed.
+
+Lemma acct_exec : forall st p, live st -> acct st -> acct (exec st p).
+Proof.
+  intros st p Hl Ha. unfold live in Hl. destruct p; unfold exec.
+  - exact Ha.
+  - exact Ha.
+  - destruct d.
+    + apply acct_do_yield. exact Ha.
+    + destruct (new_fut (emit st (EvStart id (time st)))) as [st1 f] eqn:E1.
+      assert (S1 : same st st1).
+      { replace st1 with (fst (new_fut (emit st (EvStart id (time st))))) by (rewrite E1; reflexivity).
+        eapply same_trans; [apply same_emit|apply same_new_fut]. }
+      destruct (call_at st1 (time st1 + S d) (HSetRes f)) as [st2 h] eqn:E2.
+      assert (S2 : same st1 st2).
+      { replace st2 with (fst (call_at st1 (time st1 + S d) (HSetRes f))) by (rewrite E2; reflexivity). apply same_call_at. }
+      apply acct_do_yield. exact (same_acct _ _ (same_trans _ _ _ S1 S2) Ha).
+  - apply acct_do_yield. exact Ha.
+  - apply acct_do_yield. exact Ha.
+  - exact Ha.
+  - pose proof (good_scope_enter st pre (match delay with Some d => Some (time st + d) | None => None end) Hl) as G.
+    destruct (scope_enter st pre _) as [st1 sid]. simpl in G. exact (proj1 G Ha).
+  - exact Ha.
+  - destruct (nth_scope st k) as [sid|]; [|exact Ha]. exact (proj1 (good_scope_cancel st sid Hl) Ha).
+  - destruct (nth_scope st k) as [sid|]; [|exact Ha]. exact (proj1 (good_scope_reschedule st sid _ Hl) Ha).
+  - exact Ha.
+Qed.
+
+Lemma live_set_frames : forall st k, live st -> live (set_frames st k).
+Proof. intros; assumption. Qed.
+
+Lemma acct_finish : forall st r, acct st -> acct (finish st r).
+Proof. intros st [e|] Ha; unfold finish; [exact Ha|]. destruct (t_must st); exact Ha. Qed.
+
+Lemma acct_ret : forall st, live st -> acct st -> acct (ret st).
+Proof.
+  intros st Hl Ha. unfold ret. destruct (frames st) as [|fr k]; [apply acct_finish; exact Ha|].
+  destruct fr; try exact Ha.
+  - (* FScope *)
+    pose proof (good_scope_exit (set_frames st k) sid None Hl) as G.
+    destruct (scope_exit (set_frames st k) sid None) as [st1 sw]. cbn [fst] in G.
+    assert (A1 : acct st1) by exact (proj1 G Ha).
+    destruct kind; [exact A1|]. destruct (s_caught (get_scope st1 sid)); exact A1.
+  - (* FShield *)
+    destruct y; [|exact Ha]. exact (proj1 (good_check_pending (set_frames st k) Hl) Ha).
+Qed.
+
+Lemma acct_raise : forall st e, live st -> acct st -> acct (raise_ st e).
+Proof.
+  intros st e Hl Ha. unfold raise_. destruct (frames st) as [|fr k]; [apply acct_finish; exact Ha|].
+  destruct fr; try exact Ha.
+  - pose proof (good_scope_exit (set_frames st k) sid (Some e) Hl) as G.
+    destruct (scope_exit (set_frames st k) sid (Some e)) as [st1 sw]. cbn [fst] in G.
+    assert (A1 : acct st1) by exact (proj1 G Ha).
+    destruct kind; [destruct sw; exact A1|]. destruct (s_caught (get_scope st1 sid)); exact A1.
+  - destruct y; [|exact Ha]. exact (proj1 (good_check_pending (set_frames st k) Hl) Ha).
+  - destruct (catches c e); exact Ha.
+Qed.
+
+Lemma acct_wake : forall st wt v, acct st -> acct (wake st wt v).
+Proof.
+  intros st wt v Ha. unfold wake. destruct wt as [id|id|id f h]; destruct v as [e|]; try exact Ha.
+  - destruct e as [m| |]; try exact Ha.
+    pose proof (same_reschedule_delayed st m) as S1.
+    destruct (reschedule_delayed st m) as [st1 ok]. cbn [fst] in S1.
+    destruct ok; exact (same_acct _ _ S1 Ha).
+Qed.
+
+Lemma acct_task_step : forall st v, acct st -> acct (task_step st v).
+Proof.
+  intros st v Ha. unfold task_step.
+  set (p := if t_must st then _ else _).
+  assert (P : same st (fst p)) by (unfold p; destruct (t_must st); [sm|apply same_refl]).
+  destruct p as [st0 v0]. cbn [fst] in P.
+  set (st1 := set_md (set_t_waiter st0 None) (MRun CRet)).
+  assert (A1 : acct st1) by exact (same_acct _ _ P Ha).
+  pose proof (same_resume_in (frames st1) v0 st1) as S2.
+  destruct (resume_in (frames st1) v0 st1) as [[st2 k2] r2]. cbn [fst] in S2.
+  assert (A2 : acct st2) by exact (same_acct _ _ S2 A1).
+  destruct r2 as [v'|y|].
+  - destruct k2 as [|fr k']; [exact A2|]. destruct fr; try exact A2.
+    + destruct v'; exact A2.
+    + apply acct_wake. exact A2.
+  - exact (same_acct _ _ (same_task_yield (set_frames st2 k2) y) A2).
+  - exact A2.
+Qed.
+
+Lemma acct_run_cb : forall st f c, acct st -> acct (run_cb st f c).
+Proof.
+  intros st f c Ha. unfold run_cb. destruct c as [|outer|inner].
+  - apply acct_task_step. exact Ha.
+  - destruct (f_st (get_fut st outer)); try exact Ha;
+      (destruct (f_st (get_fut st f));
+       [exact (same_acct _ _ (same_fut_finish st outer FRes) Ha)
+       |exact (same_acct _ _ (same_fut_finish st outer FRes) Ha)
+       |exact (same_acct _ _ (same_fut_finish st outer (FCanc None)) Ha)]).
+  - destruct (fut_done st inner); [exact Ha|]. exact (same_acct _ _ (same_remove_cb st inner (CbInner f)) Ha).
+Qed.
+
+Lemma acct_run_handle : forall st k, md st = MLoop -> acct st -> acct (run_handle st k).
+Proof.
+  intros st k Hm Ha. assert (Hl : live st) by (unfold live, task_done; rewrite Hm; reflexivity).
+  unfold run_handle. destruct k.
+  - apply acct_task_step; exact Ha.
+  - apply acct_run_cb; exact Ha.
+  - destruct (f_st (get_fut st f)); try exact Ha; exact (same_acct _ _ (same_fut_finish st f FRes) Ha).
+  - exact (proj1 (good_scope_cancel st s Hl) Ha).
+  - exact (proj1 (good_deliver st s Hl) Ha).
+  - rewrite Hl. exact (proj1 (good_task_uncancel_cancel st m Hl) Ha).
+  - exact Ha.
+  - rewrite Hl.
+    set (st1 := set_g_ext st (S (g_ext st))).
+    pose proof (eff_task_cancel st1 None Hl) as E. destruct E.
+    unfold acct in *. simpl in *. lia.
+Qed.
+
+Lemma acct_begin_iter : forall st, acct st -> acct (begin_iter st).
+Proof.
+  intros st Ha. unfold begin_iter.
+  destruct (inject (S (iter st)) (ctrl (set_iter st (S (iter st)))) (ready (set_iter st (S (iter st))))
+                   (nexth (set_iter st (S (iter st))))) as [rd nh].
+  set (st1 := set_heap _ _).
+  assert (A1 : acct st1) by exact Ha.
+  clearbody st1.
+  repeat match goal with
+         | |- acct (match ?x with _ => _ end) => destruct x
+         | |- acct (let '(_, _) := ?x in _) => destruct x
+         end; try exact A1;
+  repeat match goal with
+         | |- context [match ?x with _ => _ end] => destruct x
+         end; exact A1.
+Qed.
+
+(* ======== the invariant is preserved by every step: all programs, all controller schedules ======== *)
+Theorem acct_step : forall st, acct st -> acct (step st).
+Proof.
+  intros st Ha. unfold step. destruct (md st) as [c| |r|] eqn:Hm; try exact Ha.
+  - assert (Hl : live st) by (unfold live, task_done; rewrite Hm; reflexivity).
+    destruct c as [p| |e]; [apply acct_exec|apply acct_ret|apply acct_raise]; assumption.
+  - destruct (todo st) as [|n]; [apply acct_begin_iter; exact Ha|].
+    unfold run_next. destruct (ready (set_todo st n)) as [|h rd]; [exact Ha|].
+    destruct (h_canc h); [exact Ha|]. apply acct_run_handle; [exact Hm|exact Ha].
+Qed.
+
+Lemma acct_run_steps : forall fuel st, acct st -> acct (run_steps fuel st).
+Proof.
+  induction fuel as [|fu IH]; intros st Ha; simpl; [exact Ha|].
+  destruct (md st); try exact Ha; apply IH; apply acct_step; exact Ha.
+Qed.
+
+Lemma push_timers_same : forall ts st, same st (push_timers ts st).
+Proof.
+  induction ts as [|t ts IH]; intros st; simpl; [apply same_refl|].
+  eapply same_trans; [apply same_call_at|apply IH].
+Qed.
+
+Lemma acct_init : forall p timers turns k, acct (init p timers turns k).
+Proof. intros. unfold init. eapply same_acct; [apply push_timers_same|]. reflexivity. Qed.
+
+(* for every program, every controller schedule (timers, injected handles, busy-loop compression) and every number of
+   machine steps *)
+Theorem acct_reachable : forall p timers turns k fuel, acct (run_steps fuel (init p timers turns k)).
+Proof. intros. apply acct_run_steps. apply acct_init. Qed.
+
+Lemma owed_sum_zero : forall l, (forall s, In s l -> s_host s = false) -> owed_sum l = 0.
+Proof.
+  induction l as [|a l IH]; intros H; simpl; [reflexivity|].
+  rewrite IH by (intros; apply H; right; assumption).
+  unfold owed. rewrite (H a) by (left; reflexivity). reflexivity.
+Qed.
+
+Theorem no_leftover_when_balanced : forall p timers turns k fuel,
+  let st := run_steps fuel (init p timers turns k) in
+  (forall s, In s (scopes st) -> s_host s = false) ->
+  t_cnt st = g_ext st + g_leak st + g_floor st.
+Proof.
+  intros. pose proof (acct_reachable p timers turns k fuel) as A. fold st in A. unfold acct in A.
+  rewrite owed_sum_zero in A by assumption. lia.
+Qed.
+
+Lemma gs_md_emit : forall st e m k, get_scope (set_md (emit st e) m) k = get_scope st k.
+Proof. reflexivity. Qed.
+Lemma md_set_md : forall st m, md (set_md st m) = m.
+Proof. reflexivity. Qed.
+
+(* timeout().__exit__ : TimeoutError replaces the outcome iff cancelled_caught(); otherwise the outcome is untouched *)
+Lemma timeout_exit_step : forall st id sid k c,
+  frames st = FScope id KTimeout sid :: k -> md st = MRun c -> (c = CRet \/ exists e, c = CRaise e) ->
+  (s_caught (get_scope (step st) sid) = true -> md (step st) = MRun (CRaise ETimeout)) /\
+  (s_caught (get_scope (step st) sid) = false -> md (step st) = MRun c).
+Proof.
+  intros st id sid k c Hf Hm Hc. unfold step. rewrite Hm.
+  destruct Hc as [->|[e ->]].
+  - unfold ret. rewrite Hf. destruct (scope_exit (set_frames st k) sid None) as [st1 sw].
+    destruct (s_caught (get_scope st1 sid)) eqn:E; rewrite gs_md_emit, md_set_md, E; split; intro H;
+      first [reflexivity|discriminate].
+  - unfold raise_. rewrite Hf. destruct (scope_exit (set_frames st k) sid (Some e)) as [st1 sw].
+    destruct (s_caught (get_scope st1 sid)) eqn:E; rewrite gs_md_emit, md_set_md, E; split; intro H;
+      first [reflexivity|discriminate].
+Qed.
